@@ -1,6 +1,18 @@
 //! Monitors over plain typed images: C01 C02 C07 C10 C11 C12 C18.
 #[path = "../monitors/c01.rs"]
 mod c01;
+#[path = "../monitors/c02.rs"]
+mod c02;
+#[path = "../monitors/c07.rs"]
+mod c07;
+#[path = "../monitors/c10.rs"]
+mod c10;
+#[path = "../monitors/c11.rs"]
+mod c11;
+#[path = "../monitors/c12.rs"]
+mod c12;
+#[path = "../monitors/c18.rs"]
+mod c18;
 
 use firv::run::Ctx;
 
@@ -11,7 +23,14 @@ fn main() {
         std::process::exit(2);
     }
     match ctx.prop.as_str() {
+        "NOOP" => return,
         "C01" => c01::run(&mut ctx),
+        "C02" => c02::run(&mut ctx),
+        "C07" => c07::run(&mut ctx),
+        "C10" => c10::run(&mut ctx),
+        "C11" => c11::run(&mut ctx),
+        "C12" => c12::run(&mut ctx),
+        "C18" => c18::run(&mut ctx),
         p => panic!("unknown property {}", p),
     }
     ctx.finish();
